@@ -11,7 +11,7 @@ use serde_json::{json, Value};
 use std::sync::Arc;
 
 pub fn count(tier: Tier) -> u64 {
-    tier.pick(320, 6000)
+    tier.pick(320, 9000)
 }
 
 fn pick_n(rng: &mut Rng, tier: Tier, k: u64) -> usize {
